@@ -6,7 +6,9 @@ from common import Undecided
 LEVEL = "proof"
 SUBSETS = [["PartialEq"], ["PartialEq", "PartialOrd"], ["PartialEq", "Eq"], ["PartialEq", "Eq", "PartialOrd", "Ord"],
            ["PartialOrd"], ["Ord"], ["Eq"], ["PartialOrd", "Ord"], ["PartialEq", "Eq", "PartialOrd", "Ord", "Hash"]]
-G_UNITS = {"cmp_flags": ["CompareOp::is_effects_to", "HelperAttributesForCompareOp::is_ignore", "HelperAttributesForCompareOp::is_reverse"]}
+G_UNITS = {"cmp_flags": ["CompareOp::is_effects_to", "HelperAttributesForCompareOp::is_ignore", "HelperAttributesForCompareOp::is_reverse"],
+           "cmp_select": ["build_partial_eq_expr", "build_partial_ord_expr", "build_ord_expr", "ItemSourceKind::self_of", "ItemSourceKind::other_of"],
+           "kinds": ["HelperAttributeKinds::is_match_cmp_attr", "HelperAttributeKinds::extend"]}
 
 
 def programs(ctx):
@@ -42,7 +44,7 @@ def run(ctx):
     cov = dict(st)
     cov.update({
         "obligations": st["kani_harnesses"] + g["obligations"], "discharged": st["kani_verified"] + g["discharged"],
-        "checker_cmd": "cargo kani -Z function-contracts -j 16 --output-format terse (crates build/e/C01/*) ; verus build/g/cmp_flags.rs",
+        "checker_cmd": "cargo kani -Z function-contracts -j 16 --output-format terse (crates build/e/C01/*) ; verus build/g/{cmp_flags,cmp_select,kinds}.rs",
         "trusted_base": ["Kani 0.68.0 / CBMC 6.11", "rustc (proc-macro expansion of the real /repo/derive-ex)", "Verus/Z3 for layer G"],
         "functions_under_contract": ["w_eq/w_partial_cmp/w_cmp wrappers of the generated PartialEq::eq, PartialOrd::partial_cmp, Ord::cmp of every program"] + g["functions_under_contract"],
         "g_units": g["units"], "solver_ms_verus": g["smt_ms"],
